@@ -12,6 +12,7 @@ All events are totally ordered (one thread at a time), so any log written by con
 """
 import sys
 import threading as _threading
+from _thread import allocate_lock as _allocate_lock
 import types
 
 _real = _threading
@@ -40,18 +41,38 @@ def prefer_others(names, sched):
     return names[0]
 
 
+class _Signal:
+    """binary signal on a raw lock: release() by the signaller, acquire() by the single waiter (never signalled twice
+    before it is consumed)"""
+    __slots__ = ("_l",)
+
+    def __init__(self):
+        self._l = _allocate_lock()
+        self._l.acquire()
+
+    def release(self):
+        self._l.release()
+
+    def acquire(self, timeout=-1):
+        return self._l.acquire(True, timeout)
+
+
 class Sched:
+    """Hand-off is direct: every controlled thread parks on its own semaphore and the scheduler on its own, so a
+    context switch costs two semaphore operations and wakes exactly one thread."""
+
     def __init__(self, chooser=prefer_others, trace_filter=None, max_steps=200000):
         self.chooser = chooser
         self.trace_filter = trace_filter        # callable(code) -> bool, or None for coarse mode
-        self.mu = _real.Condition()
         self.state = {}       # ident -> 'ready' | 'running' | 'blocked' | 'done'
         self.waitfor = {}     # ident -> predicate
         self.deadline = {}    # ident -> virtual time
         self.wake = {}        # ident -> 'ok' | 'timeout' | 'hang' | 'abort'
+        self.sem = {}         # ident -> semaphore the thread parks on
+        self.sched_sem = _Signal()
+        self.reg_sem = _Signal()
         self.names = {}
         self.threads = {}
-        self.turn = None
         self.now = 0.0
         self.steps = 0
         self.max_steps = max_steps
@@ -72,16 +93,20 @@ class Sched:
         self.counter[prefix] = self.counter.get(prefix, 0) + 1
         return "%s%d" % (prefix, self.counter[prefix])
 
+    def _park(self, t):
+        self.sem[t].acquire()
+        self.state[t] = "running"
+        self.waitfor.pop(t, None)
+        self.deadline.pop(t, None)
+        return self.wake.pop(t, "ok")
+
     def _register(self, name):
-        with self.mu:
-            t = self.me()
-            self.names[t] = name
-            self.state[t] = "ready"
-            self.mu.notify_all()
-            while self.turn != t:
-                self.mu.wait()
-            self.state[t] = "running"
-            w = self.wake.pop(t, "ok")
+        t = self.me()
+        self.names[t] = name
+        self.sem[t] = _Signal()
+        self.state[t] = "ready"
+        self.reg_sem.release()          # the spawner continues; this thread waits for its first turn
+        w = self._park(t)
         if w == "abort":
             raise SchedAbort()
 
@@ -90,24 +115,17 @@ class Sched:
         t = self.me()
         if t not in self.state:
             return True
-        with self.mu:
-            if self.abort:
-                raise SchedAbort()
-            if pred is None:
-                self.state[t] = "ready"
-            else:
-                self.state[t] = "blocked"
-                self.waitfor[t] = pred
-                if timeout is not None:
-                    self.deadline[t] = self.now + timeout
-            self.turn = None
-            self.mu.notify_all()
-            while self.turn != t:
-                self.mu.wait()
-            self.state[t] = "running"
-            self.waitfor.pop(t, None)
-            self.deadline.pop(t, None)
-            w = self.wake.pop(t, "ok")
+        if self.abort:
+            raise SchedAbort()
+        if pred is None:
+            self.state[t] = "ready"
+        else:
+            self.state[t] = "blocked"
+            self.waitfor[t] = pred
+            if timeout is not None:
+                self.deadline[t] = self.now + timeout
+        self.sched_sem.release()
+        w = self._park(t)
         if w == "abort":
             raise SchedAbort()
         if w == "hang":
@@ -137,10 +155,8 @@ class Sched:
 
     def _finish(self):
         t = self.me()
-        with self.mu:
-            self.state[t] = "done"
-            self.turn = None
-            self.mu.notify_all()
+        self.state[t] = "done"
+        self.sched_sem.release()
 
     def _tracer(self, frame, event, arg):
         code = frame.f_code
@@ -154,30 +170,30 @@ class Sched:
             self.yield_point()
         return self._local
 
-    def spawn(self, name, fn, trace=True):
-        """start a controlled thread; returns once it is parked at its first yield point"""
-        def body():
+    def _body(self, name, fn, trace):
+        registered = False
+        try:
+            self._register(name)
+            registered = True
+            if self.trace_filter is not None and trace:
+                sys.settrace(self._tracer)
             try:
-                self._register(name)
-                if self.trace_filter is not None and trace:
-                    sys.settrace(self._tracer)
-                try:
-                    fn()
-                finally:
-                    sys.settrace(None)
-            except (SchedAbort, Hang):
-                pass
-            except StepLimit:
-                pass
-            except BaseException as x:     # noqa
-                self.errors.append((name, x))
+                fn()
             finally:
+                sys.settrace(None)
+        except (SchedAbort, Hang, StepLimit):
+            pass
+        except BaseException as x:     # noqa
+            self.errors.append((name, x))
+        finally:
+            if registered or self.me() in self.state:
                 self._finish()
-        th = _real.Thread(target=body, daemon=True, name=name)
+
+    def spawn(self, name, fn, trace=True):
+        """start a controlled thread; returns once it is parked waiting for its first turn"""
+        th = _real.Thread(target=lambda: self._body(name, fn, trace), daemon=True, name=name)
         th.start()
-        with self.mu:
-            while th.ident not in self.state:
-                self.mu.wait()
+        self.reg_sem.acquire()
         self.threads[th.ident] = th
         return th
 
@@ -185,27 +201,9 @@ class Sched:
         """start() replacement for Thread subclasses of the code under test (workers, oneway threads)"""
         name = self.fresh_name(prefix)
         orig_run = thread.run
-
-        def run():
-            try:
-                self._register(name)
-                if self.trace_filter is not None:
-                    sys.settrace(self._tracer)
-                try:
-                    orig_run()
-                finally:
-                    sys.settrace(None)
-            except (SchedAbort, Hang, StepLimit):
-                pass
-            except BaseException as x:     # noqa
-                self.errors.append((name, x))
-            finally:
-                self._finish()
-        thread.run = run
+        thread.run = lambda: self._body(name, orig_run, True)
         _real.Thread.start(thread)
-        with self.mu:
-            while thread.ident not in self.state:
-                self.mu.wait()
+        self.reg_sem.acquire()
         self.threads[thread.ident] = thread
         thread._verif_name = name
         return name
@@ -226,54 +224,52 @@ class Sched:
         self.spawn("main", main)
         main_id = [t for t, n in self.names.items() if n == "main"][0]
         try:
-            with self.mu:
-                while True:
-                    while self.turn is not None or any(s == "running" for s in self.state.values()):
-                        self.mu.wait()
-                    if self.state[main_id] == "done":
-                        break
-                    live = [t for t, s in self.state.items() if s != "done"]
-                    enabled = [t for t in live if self.state[t] == "ready" or (self.state[t] == "blocked" and self.waitfor[t]())]
-                    if not enabled:
-                        timers = sorted((d, self.names[t], t) for t, d in self.deadline.items() if self.state[t] == "blocked")
-                        if timers:
-                            d, _, t = timers[0]
-                            self.now = max(self.now, d)
-                            self.wake[t] = "timeout"
-                            pick = t
-                        else:
-                            self.wake[main_id] = "hang"
-                            pick = main_id
+            while True:
+                if self.state[main_id] == "done":
+                    break
+                enabled = [t for t, s in self.state.items()
+                           if s == "ready" or (s == "blocked" and self.waitfor[t]())]
+                if not enabled:
+                    timers = sorted((d, self.names[t], t) for t, d in self.deadline.items() if self.state[t] == "blocked")
+                    if timers:
+                        d, _, t = timers[0]
+                        self.now = max(self.now, d)
+                        self.wake[t] = "timeout"
+                        pick = t
                     else:
-                        enabled.sort(key=lambda t: self.names[t])
-                        name = self.chooser([self.names[x] for x in enabled], self)
-                        pick = [x for x in enabled if self.names[x] == name][0]
-                    self.steps += 1
-                    if self.steps > self.max_steps:
                         self.wake[main_id] = "hang"
                         pick = main_id
-                        result["steplimit"] = True
-                    self.log.append(self.names[pick])
-                    self.turn = pick
-                    self.mu.notify_all()
+                elif len(enabled) == 1:
+                    pick = enabled[0]
+                    name = self.chooser([self.names[pick]], self)
+                else:
+                    enabled.sort(key=lambda t: self.names[t])
+                    name = self.chooser([self.names[x] for x in enabled], self)
+                    pick = [x for x in enabled if self.names[x] == name][0]
+                self.steps += 1
+                if self.steps > self.max_steps:
+                    self.wake[main_id] = "hang"
+                    pick = main_id
+                    result["steplimit"] = True
+                self.log.append(self.names[pick])
+                self.sem[pick].release()
+                self.sched_sem.acquire()
         finally:
             self._abort_rest()
             CUR = None
         return result
 
     def _abort_rest(self):
-        with self.mu:
-            self.abort = True
-            for _ in range(10000):
-                while self.turn is not None or any(s == "running" for s in self.state.values()):
-                    self.mu.wait(1.0)
-                live = [t for t, s in self.state.items() if s != "done"]
-                if not live:
-                    break
-                t = live[0]
-                self.wake[t] = "abort"
-                self.turn = t
-                self.mu.notify_all()
+        self.abort = True
+        for _ in range(10000):
+            live = [t for t, s in self.state.items() if s != "done"]
+            if not live:
+                break
+            t = live[0]
+            self.wake[t] = "abort"
+            self.sem[t].release()
+            if not self.sched_sem.acquire(timeout=5.0):
+                break
         for th in list(self.threads.values()):
             th.join(2.0)
 
